@@ -148,7 +148,7 @@ def main(argv=None):
             # counterexample: extract concrete values, replay natively
             pres, pinfo = kani_engine.run([h.fq()], h.timeout(a.tier) * 2, jobs=1, playback=True, unwindset=h.unwindset,
                                           log_path=os.path.join(LOGS, "%s-%s-playback.log" % (prop, h.name)))
-            vals = pinfo.get("playback_vals")
+            vals = kani_engine.parse_playback(pinfo.get("playback_out", ""), nonunwind[0][1])
             if vals is None:
                 inconclusive.append("harness %s: failed (%s) but no concrete values could be extracted"
                                     % (h.name, nonunwind[0][1]))
